@@ -33,6 +33,9 @@ VERIF_KINDS = [
     'possible division by zero',
     'possible bit shift underflow/overflow',
     'unable to prove',
+    'could not prove termination',
+    'fails to satisfy',
+    'may fail to meet its declared type invariant',
     'cannot show',
     'unreachable!() or unimplemented!() might be reachable',
     'termination checking',
@@ -218,6 +221,8 @@ def _run_unit(unit, canaries=True, keep=None, extra=None):
         if msg.startswith('aborting due to'):
             continue
         kind = classify(msg)
+        if d.get('code') is not None:
+            kind = 'other'      # rustc diagnostics carry an error code (E0277 ...); verifier diagnostics never do
         spans = d.get('spans', [])
         prim = [s for s in spans if s.get('is_primary')]
         order = prim + [s for s in spans if not s.get('is_primary')]
